@@ -160,21 +160,26 @@ CONDITIONS.append(
 MODS = sorted(set(c.__module__ for c in UNIVERSE[NQUICK:]))
 
 
-def smoke(mi: int, k: int, mask: int):
-    """Every class of the non-core schema modules with concrete strings (quick-tier stand-in for
+def smoke(mi: int, mask: int):
+    """Every class of one non-core schema module with concrete strings (quick-tier stand-in for
     the per-class symbolic condition, which runs for these modules in the thorough tier)."""
     from veriflib.boot import concrete
-    mi, k, mask = concrete(mi), concrete(k), concrete(mask)
+    mi, mask = concrete(mi), concrete(mask)
     idx = [i for i in range(NQUICK, len(UNIVERSE)) if UNIVERSE[i].__module__ == MODS[mi]]
-    if k >= len(idx):
-        return True, False, "no such class"
-    r = roundtrip(idx[k], "a&", "<b", "c\"", [0, 21, 42, 63][mask], 2, True)
-    return r[0], True, r[2]
+    bad = []
+    for i in idx:
+        try:
+            r = roundtrip(i, "a&", "<b", "c\"", [0, 21, 42, 63][mask], 2, True)
+        except Exception as e:
+            r = (False, True, "%s raised %r" % (UNIVERSE[i].__name__, e))
+        if not r[0]:
+            bad.append(r[2])
+    return len(bad) == 0, True, "; ".join(bad[:5]) or "ok"
 
 
 CONDITIONS.append(
-    Cond(name="smoke", fn="smoke", params=[("mi", "int"), ("k", "int"), ("mask", "int")],
-         pre=["0 <= mi < %d" % len(MODS), "0 <= k < 120", "0 <= mask <= 3"],
+    Cond(name="smoke", fn="smoke", params=[("mi", "int"), ("mask", "int")],
+         pre=["0 <= mi < %d" % len(MODS), "0 <= mask <= 3"],
          partitions={"quick": [{"mi": m} for m in range(len(MODS))]}, tiers=("quick",),
          timeout={"quick": 600}, path_timeout=60,
          functions=["SamlBase._to_element_tree", "saml2_tophat.create_class_from_element_tree", "class tables of the extension / schema / ws / profile / authn_context modules"],
